@@ -448,15 +448,17 @@ Definition decode_label (dec : alg -> bytes -> bytes) (label : option bytes) (b 
 (* ------------------------------------------------------------------------------------ *)
 (** * The memo cell under concurrency: n tasks inside the same [get_x]                    *)
 
-(** program counter of one task; one transition per access of the cell / per await *)
+(** [tokio::sync::OnceCell::get_or_init]: a task that finds the cell empty takes the cell's only permit,
+    compresses, stores its bytes and gives the permit up for good; a task that finds the permit taken waits
+    until the cell is filled.  Program counter of one task; one transition per access of the cell / per await *)
 Inductive pc :=
-| PStart                      (* before [if self.x().is_none()] *)
-| PComputing                  (* inside spawn_blocking(..).await *)
-| PComputed (buf : bytes)     (* before the second [is_none()] + [replace(buffer)] *)
-| PRet                        (* before [self.x().as_ref().unwrap()] *)
-| PDone (r : outcome bytes).  (* returned ([Panic] = unwrap on None) *)
+| PStart                      (* before the fast-path check / waiting for the permit *)
+| PComputing                  (* holds the permit, inside spawn_blocking(..).await *)
+| PComputed (buf : bytes)     (* holds the permit, before the value is stored *)
+| PRet                        (* before the reference into the cell is returned *)
+| PDone (r : outcome bytes).  (* returned ([Panic] = the cell was empty after all) *)
 
-Record mstate := mkM { m_cell : option bytes; m_pcs : list pc }.
+Record mstate := mkM { m_cell : option bytes; m_lock : bool; m_pcs : list pc }.
 
 Fixpoint set_nth {A} (i : nat) (v : A) (l : list A) : list A :=
   match l, i with
@@ -465,30 +467,67 @@ Fixpoint set_nth {A} (i : nat) (v : A) (l : list A) : list A :=
   | x :: r, S j => x :: set_nth j v r
   end.
 
-(** [vals]: what the encoder run of task i produces *)
+(** [vals]: what the encoder run of task i produces.  [None]: task i cannot move (it has returned, or it waits
+    for the permit) *)
 Definition mstep (vals : list bytes) (st : mstate) (i : nat) : option mstate :=
   match nth_error (m_pcs st) i with
   | Some PStart =>
-      Some (mkM (m_cell st) (set_nth i (match m_cell st with None => PComputing | Some _ => PRet end) (m_pcs st)))
+      match m_cell st with
+      | Some _ => Some (mkM (m_cell st) (m_lock st) (set_nth i PRet (m_pcs st)))
+      | None => if m_lock st then None
+                else Some (mkM (m_cell st) true (set_nth i PComputing (m_pcs st)))
+      end
   | Some PComputing =>
-      Some (mkM (m_cell st) (set_nth i (PComputed (nth i vals [])) (m_pcs st)))
+      Some (mkM (m_cell st) (m_lock st) (set_nth i (PComputed (nth i vals [])) (m_pcs st)))
   | Some (PComputed buf) =>
-      Some (mkM (match m_cell st with None => Some buf | Some b => Some b end) (set_nth i PRet (m_pcs st)))
+      Some (mkM (Some buf) false (set_nth i PRet (m_pcs st)))
   | Some PRet =>
-      Some (mkM (m_cell st)
+      Some (mkM (m_cell st) (m_lock st)
                 (set_nth i (PDone (match m_cell st with Some b => Ok b | None => Panic end)) (m_pcs st)))
   | Some (PDone _) => None
   | None => None
   end.
 
-(** a schedule is a list of task indices; a disabled step is skipped *)
+(** a schedule is a list of task indices; a step that cannot be taken is skipped *)
 Fixpoint mrun (vals : list bytes) (st : mstate) (sched : list nat) : mstate :=
   match sched with
   | [] => st
   | i :: r => mrun vals (match mstep vals st i with Some st' => st' | None => st end) r
   end.
-Definition minit (cell : option bytes) (n : nat) : mstate := mkM cell (repeat PStart n).
+Definition minit (cell : option bytes) (n : nat) : mstate := mkM cell false (repeat PStart n).
 Definition pc_done (p : pc) : bool := match p with PDone _ => true | _ => false end.
+(** steps a task still has to take *)
+Definition steps_left (p : pc) : nat :=
+  match p with PStart => 4 | PComputing => 3 | PComputed _ => 2 | PRet => 1 | PDone _ => 0 end.
+Definition total_left (st : mstate) : nat := fold_right (fun p acc => (steps_left p + acc)%nat) O (m_pcs st).
+
+(** ** kvarn 0.6.3: [UnsafeCell<Option<Bytes>>], "check; compress; check; write; read" with nothing that makes
+    the second check and the write one step.  On one thread no other task runs between them; on the worker
+    threads of a multi-thread runtime another task does.  Kept for [memo_double_write_v0_refuted] only. *)
+Inductive pc0 :=
+| P0Start | P0Computing | P0Computed (buf : bytes)
+| P0Writing (buf : bytes)     (* the second check saw an empty cell *)
+| P0Ret | P0Done (r : outcome bytes).
+Record mstate0 := mkM0 { m0_cell : option bytes; m0_pcs : list pc0 }.
+Definition mstep0 (vals : list bytes) (st : mstate0) (i : nat) : option mstate0 :=
+  match nth_error (m0_pcs st) i with
+  | Some P0Start =>
+      Some (mkM0 (m0_cell st) (set_nth i (match m0_cell st with None => P0Computing | Some _ => P0Ret end) (m0_pcs st)))
+  | Some P0Computing => Some (mkM0 (m0_cell st) (set_nth i (P0Computed (nth i vals [])) (m0_pcs st)))
+  | Some (P0Computed buf) =>
+      Some (mkM0 (m0_cell st) (set_nth i (match m0_cell st with None => P0Writing buf | Some _ => P0Ret end) (m0_pcs st)))
+  | Some (P0Writing buf) => Some (mkM0 (Some buf) (set_nth i P0Ret (m0_pcs st)))       (* Option::replace *)
+  | Some P0Ret =>
+      Some (mkM0 (m0_cell st) (set_nth i (P0Done (match m0_cell st with Some b => Ok b | None => Panic end)) (m0_pcs st)))
+  | Some (P0Done _) => None
+  | None => None
+  end.
+Fixpoint mrun0 (vals : list bytes) (st : mstate0) (sched : list nat) : mstate0 :=
+  match sched with
+  | [] => st
+  | i :: r => mrun0 vals (match mstep0 vals st i with Some st' => st' | None => st end) r
+  end.
+Definition minit0 (n : nat) : mstate0 := mkM0 None (repeat P0Start n).
 
 (* ------------------------------------------------------------------------------------ *)
 (** * Executable instances for the correspondence run                                     *)
@@ -744,8 +783,19 @@ Definition run_spec_neg (x : xval) : xval :=
   | _ => bad_input
   end.
 
+(** "neg.stress": (L (N rounds) (N n) (N body length) (N coding)): rounds times, n tasks on the worker threads of a
+    multi-thread runtime ask a cached page with cold memo cells for the same coding -> (L (N anomalies) (N replies)
+    (N wrong replies)).  By [memo_invariant] and [memo_write_once] every reply carries the one buffer the cell
+    holds: no anomaly, whatever the interleaving. *)
+Definition run_stress (x : xval) : xval :=
+  match x with
+  | XL [XN rounds; XN n; XN _; XN c] => if c <? 3 then XL [XN 0; XN (rounds * n); XN 0] else bad_input
+  | _ => bad_input
+  end.
+
 Definition negotiate_table : list (bytes * (xval -> xval)) :=
   [ (B "neg.list_header", run_list_header);
     (B "neg.mime", run_mime);
     (B "neg.pipe", run_pipe_neg);
-    (B "neg.spec", run_spec_neg) ].
+    (B "neg.spec", run_spec_neg);
+    (B "neg.stress", run_stress) ].
